@@ -599,17 +599,17 @@ func (c08) NRuns(tier string) int {
 	if tier == "thorough" {
 		return c08EditCount()*300 + 300000
 	}
-	return c08EditCount()*3 + 600
+	return c08EditCount()*6 + 2000
 }
 func (c08) Rule() string {
-	return "login scripts derived from the valid plain and encrypted reply scripts: EVERY single edit (delete / duplicate / swap-adjacent each package; each field set to each alternative: ack status, message id, parameter count and types, cipher, key empty/garbage/trailing/PKIX/too small, capability masks zero, DONE status bits; reply stops after each package; no reply at all), each classified by construction as MUST-SUCCEED / MUST-FAIL / EITHER, x packetisations x key sizes 1024/1536/2048 x nonce lengths x 0..3 remote servers (quick: 3 variants per edit, thorough: 60), one variant of every edit (and 12% of the others) repeats the login 5..8 times and then make a control login against the valid script (must succeed); plus seeded scripts with benign decorations (invisible ENVCHANGE/EED-info packages) and 2..4 edits; non-trivial = an edit or decoration was applied; distinct = distinct (flow, edit, key size, remote count)"
+	return "login scripts derived from the valid plain and encrypted reply scripts: EVERY single edit (delete / duplicate / swap-adjacent each package; each field set to each alternative: ack status, message id, parameter count and types, cipher, key empty/garbage/trailing/PKIX/too small, capability masks zero, DONE status bits; reply stops after each package; no reply at all), each classified by construction as MUST-SUCCEED / MUST-FAIL / EITHER, x packetisations x key sizes 1024/1536/2048 x nonce lengths x 0..3 remote servers (quick: 6 variants per edit, thorough: 300), one variant of every edit (and 12% of the others) repeats the login 5..8 times and then make a control login against the valid script (must succeed); plus seeded scripts with benign decorations (invisible ENVCHANGE/EED-info packages) and 2..4 edits; non-trivial = an edit or decoration was applied; distinct = distinct (flow, edit, key size, remote count)"
 }
 func (c08) Components() map[string]string {
 	return map[string]string{"tds (Channel.Login, LoginConfig, rsaEncrypt, capability negotiation, NextPackageUntil)": "real (rewritten)", "crypto/rand": "stub: simrt seeded stream", "server": "stub: two-phase scripted login peer", "clock/contexts": "simulated (30 s login deadline costs no wall time)"}
 }
 
 func (c08) Gen(r *Rand, idx int, tier string) interface{} {
-	variants := 3
+	variants := 6
 	if tier == "thorough" {
 		variants = 300
 	}
@@ -824,7 +824,7 @@ func (c09) NRuns(tier string) int {
 	if tier == "thorough" {
 		return 300000
 	}
-	return 1500
+	return 4000
 }
 func (c09) Rule() string {
 	return "encrypted logins (and plain logins as control) with random passwords and remote passwords of length 0..key capacity, marker passwords (>= 8 random bytes) also chosen to equal / contain / be contained in user, host, application and remote server names, key sizes 1024/1536/2048, nonce lengths 0..64, 0..3 remote servers, valid and failing reply scripts; the peer holds the private key; non-trivial = encrypted flow reached the password message; distinct = distinct (collision class, remote count, key size, script class)"
